@@ -36,11 +36,11 @@ def gen_cases(tier, seed):
             if r.random() < 0.2:
                 e.update({"size": 3 << 20, "segs": r.choice([[], [[0, 5000]], [[4096, 9000], [2 << 20, 70000]]]), "sync": True})   # sparse / all-hole
             spec.append(e)
-        pol = r.choice(["none", "none", "none", "cloneok", "cfr-short"])
+        pol = r.choice(["none", "none", "none", "cloneok", "cfr-short", "no-cfr", "fsync-fault"])
         sch = dict(r.choice(scheds))
         sch["sched_seed"] = r.randrange(1 << 30)
         use = r.random() < 0.93
-        yield {"spec": spec, "driver": driver, "bs": bs, "workers": r.choice([1, 2, 4, 8, 16]), "policy": pol, "plan": sch, "use": use, "maxblocks": maxblocks, "fs": "ext4",
+        yield {"spec": spec, "driver": driver, "bs": bs, "workers": r.choice([1, 2, 4, 8, 16]), "policy": pol, "plan": sch, "overwrite": r.random() < 0.25, "use": use, "maxblocks": maxblocks, "fs": "ext4",
                "extra": r.choice([[], [], [], ["--no-perms"], ["--no-timestamps"], ["--no-perms", "--no-timestamps"], ["--ownership"], ["--backup", "numbered"], ["-L"], ["--gitignore"], ["--reflink", "never"]])}
 
 
@@ -49,9 +49,20 @@ def run_case(case):
     with core.Sandbox(case["fs"], "c18") as sb:
         root = sb.root
         tree.materialize(root, case["spec"])
+        if case.get("overwrite"):
+            # an older copy is already in place (longer files): the sync must still follow the last write of the new data
+            tree.materialize(root, [{"p": "dst", "k": "d"}, {"p": "dst/src", "k": "d"}, {"p": "dst/src/d", "k": "d"}] +
+                             [dict(e, p="dst/" + e["p"], size=e["size"] + 5000, seed=e["seed"] + 1, segs=None) for e in case["spec"] if e["k"] == "f"])
         rules = []
         if case["policy"] == "cloneok":
             rules.append({"id": "c", "sys": "ioctl", "iocmd": core.FICLONE, "under": root + "/", "action": "cloneok"})
+        elif case["policy"] == "fsync-fault":
+            # one fsync fails (the run may then stop with a non-zero status; if it exits 0, every file must still have been synced)
+            import random as _r
+            rr = _r.Random(case["plan"]["sched_seed"])
+            rules.append({"id": "f", "sys": "fsync", "under": root + "/", "action": "fault", "errno": rr.choice([22, 38, 95, 5]), "nth": rr.randint(1, 3)})
+        elif case["policy"] == "no-cfr":
+            rules.append({"id": "r", "sys": "copy_file_range", "under": root + "/", "action": "fault", "errno": 18})
         elif case["policy"] == "cfr-short":
             rules.append({"id": "s", "sys": "copy_file_range", "under": root + "/", "action": "short", "len": "half"})
         plan = dict(case["plan"])
